@@ -405,12 +405,12 @@ def file_a(le=True):
     return dict(name='A' if le else 'Abe', image=img, labels=labels, units=[u0.off, u1.off])
 
 
-def file_b():
+def file_b(le=False):
     """ELF32 BE; three units: DWARF 5 (line_strp, implicit_const, ref_udata sibling), DWARF 3 in the
     64-bit format, DWARF 2; nesting depth 3 without siblings; an entry with an empty children list;
     the 32-bit units 0 and 2 share the v5 line program, the 64-bit unit has none (DWARF 7.4: the two
     formats are not mixed within one unit's contributions)."""
-    b = Builder(False)
+    b = Builder(le)
     u0 = Unit(5, Die(DW_TAG_compile_unit,
                      [(DW_AT_name, F_line_strp, ('str', b'm.c')), (DW_AT_comp_dir, F_line_strp, ('str', b'/src')),
                       (DW_AT_stmt_list, F_sec_offset, 0)],
@@ -439,13 +439,13 @@ def file_b():
     frame = b.frame([(0x400, 0x10, bytes([0x41, 0x0e, 8, 0x85, 2])), (0x410, 0x8, bytes([0x44, 0x0e, 12, 0x87, 3, 0x0a, 0x0b]))],
                     addr_size=4, version=3)
     dynstr = b'\0libm.so\0'
-    img = elf_image(False, False,
+    img = elf_image(le, False,
                     [(b'.text', 1, b'\0' * 16, 6), (b'.debug_info', 1, info, 0), (b'.debug_abbrev', 1, abbrev, 0),
                      (b'.debug_str', 1, bytes(b.strtab), 0), (b'.debug_line_str', 1, bytes(b.line_str), 0),
                      (b'.debug_line', 1, line, 0), (b'.debug_frame', 1, frame, 0)],
                     [_sym(b'', 0, 0, 0, 0), _sym(b'h', 0x400), _sym(b'k', 0x800, 0x11), _sym(b'h', 0x410, 0x02)],
                     [(1, 1), (0, 0), (1, 1)], dynstr, 20)
-    return dict(name='B', image=img, labels=labels, units=[u0.off, u1.off, u2.off])
+    return dict(name='B' if not le else 'Ble', image=img, labels=labels, units=[u0.off, u1.off, u2.off])
 
 
 def file_c():
@@ -488,6 +488,29 @@ def file_c():
                     [_sym(b'', 0, 0, 0, 0), _sym(b'f1', 0x3000), _sym(b'f2', 0x3010), _sym(b'f3', 0x3040)],
                     [(14, 11), (1, 1), (0, 0), (0, 0), (1, 1), (12, 0x99)], dynstr, 62)
     return dict(name='C', image=img, labels=labels, units=[u0.off, u1.off])
+
+
+def file_d():
+    """ELF64 LE; a DWARF 4 unit and a DWARF 2 unit that SHARE one abbreviation table (32-bit DWARF, address size 8), with
+    a declaration used in both whose DW_FORM_ref_addr attribute is offset-sized (4) in the first and address-sized (8)
+    in the second unit."""
+    b = Builder(True)
+    def gref(name, label):
+        return Die(DW_TAG_variable, [(DW_AT_name, F_string, name), (DW_AT_type, F_ref_addr, ('ref', 'base'))], label=label)
+    def base(label):
+        return Die(DW_TAG_base_type, [(DW_AT_name, F_string, b'i'), (DW_AT_byte_size, F_data1, 4)], label=label)
+    u0 = Unit(4, Die(DW_TAG_compile_unit, [(DW_AT_name, F_string, b'r.c')],
+                     [base('base'), gref(b'p', 'p'), gref(b'q', 'q')]))
+    u1 = Unit(2, Die(DW_TAG_compile_unit, [(DW_AT_name, F_string, b's.c')],
+                     [base('base2'), gref(b'x', 'x'), gref(b'y', 'y')]))
+    u1.share_abbrev_with = 0
+    info, abbrev, labels = b.build_info([u0, u1])
+    dynstr = b'\0libq.so\0'
+    img = elf_image(True, True,
+                    [(b'.text', 1, b'\x90' * 8, 6), (b'.debug_info', 1, info, 0), (b'.debug_abbrev', 1, abbrev, 0),
+                     (b'.debug_str', 1, bytes(b.strtab) or b'\0', 0)],
+                    [_sym(b'', 0, 0, 0, 0), _sym(b'r', 0x10)], [(1, 1), (0, 0)], dynstr, 62)
+    return dict(name='D', image=img, labels=labels, units=[u0.off, u1.off])
 
 
 def all_files():
